@@ -283,7 +283,11 @@ class DictReader:
 
                 eval_successful: bool = False
                 eval_result: V | None = None
-                if "$" not in expression:
+                if len(_refs) == 1 and item["expression"].strip() == _refs[0] and _refs[0] in references_resolved:
+                    # A plain reference holds the value of the key it names, as it is (no evaluation of its content)
+                    eval_result = deepcopy(references_resolved[_refs[0]])
+                    eval_successful = True
+                elif "$" not in expression:
                     try:
                         eval_result = cast("V", eval(expression))  # noqa: S307
                         eval_successful = True
